@@ -12,8 +12,8 @@ package cgroup
 //@   arith int
 //@   assume os.ErrExist != nil
 //@   assigns G.made
-//@   ensures result == nil ==> G.made[path]
-//@   ensures forall p string :: p != path ==> G.made[p] == old(G.made[p])
+//@   ensures result == nil ==> G.made == old(G.made)[path := true]
+//@   ensures result != nil ==> G.made == old(G.made)
 
 //@ func pkg/cgroup.remove props C20
 //@   arith int
@@ -228,3 +228,26 @@ package cgroup
 //@   ensures result.1 == nil ==> len(result.0) >= 0
 //@   loop 0: invariant -1 <= rangeindex && rangeindex < len(procs) && len(rt) <= rangeindex + 1 && cap(rt) == len(procs) && (fresh(rt) || cap(rt) == 0)
 //@   loop 0: invariant forall k int :: 0 <= k && k < len(rt) ==> exists j int :: 0 <= j && j <= rangeindex && rt[k] == atoi(procs[j])
+
+// V1.New: every controller directory recorded in the new handle's `all` list (the ones Destroy and the
+// error clean-up remove) was created by this call; a directory that already existed is never listed.
+// (slicelit names the literal table of (parent controller, slot in the new handle) pairs the loop ranges over.)
+//@ func pkg/cgroup.initCpuset
+//@   trusted "copies cpuset.cpus / cpuset.mems from the parent (file contents only)"
+//@   pure
+//@ func pkg/cgroup.(*V1).New$1 props C20
+//@   arith int
+//@   requires v1 != nil && forall k int :: 0 <= k && k < len(v1.all) ==> v1.all[k] != nil
+//@   assigns G.rmdir
+//@   loop 0: invariant -1 <= rangeindex && rangeindex < len(v1.all)
+//@ func pkg/cgroup.(*V1).New props C20
+//@   arith int
+//@   requires c != nil
+//@   assume os.ErrExist != nil
+//@   assigns G.made, G.rmdir
+//@   callsite return: assert @C20 err == nil ==> forall k int :: 0 <= k && k < len(v1.all) ==> v1.all[k] != nil && G.made[v1.all[k].path]
+//@   loop 0: invariant -1 <= rangeindex && rangeindex < 5 && len(slicelit) == 5 && v1 != nil && fresh(v1) && err == nil && fresh(slicelit) && sep(v1, elemaddr(slicelit, 0))
+//@   loop 0: invariant slicelit[0].new == addrof(v1.cpu) && slicelit[1].new == addrof(v1.cpuset) && slicelit[2].new == addrof(v1.cpuacct) && slicelit[3].new == addrof(v1.memory) && slicelit[4].new == addrof(v1.pids)
+//@   loop 0: invariant (fresh(v1.all) && sep(v1, elemaddr(v1.all, 0)) && sep(elemaddr(slicelit, 0), elemaddr(v1.all, 0))) || cap(v1.all) == 0
+//@   loop 0: invariant forall k int :: 0 <= k && k < len(v1.all) ==> v1.all[k] != nil && fresh(v1.all[k]) && allocated(v1.all[k])
+//@   loop 0: invariant forall k int :: 0 <= k && k < len(v1.all) ==> G.made[v1.all[k].path]
